@@ -54,6 +54,7 @@ def label(s):
         return 'D6' if 'recipient=pending' in s else 'D16'
     if s.startswith('C16|later-events-processed-differently-after-invitation|'): return 'D6'
     if s.startswith('C06|refused-event-changed-state|') and ('|next-epoch|' in s or '|message-stored-next-epoch|' in s) and s.endswith('|mls+record') and ('|commit|' in s or '|proposal|' in s): return 'D18'
+    if s.startswith('C06|event-that-is-not-a-commit-changed-the-epoch|proposal|mls-') and ('|next-epoch|' in s or '|message-stored-next-epoch|' in s) and s.endswith('|Unprocessable'): return 'D18'
     if s.startswith('C08|two-groups|record-vs-mls:epoch+nostr_group_id|after=g2:takes-the-old-id-commit->Unprocessable|'): return 'D23'
     if s.startswith('C08|two-groups|messages-not-routed-to-their-group|g2:g2-under-the-reused-id|'): return 'D23'
     if s.startswith('C08|record-vs-mls:') and 'process_welcome(foreign-invitation)->Welcome' in s and 'accept_welcome(own-invitation)->Ok' in s: return 'D11'
